@@ -64,6 +64,7 @@ def check(ctx):
     key_inputs(ctx)
     name_overrides(ctx)
     aux_key_names(ctx)
+    fused_name_hash(ctx)
     _expr_token(ctx)
     # dask/tokenize.py is an anchor of this property: the injectivity rules of C12 are part of it
     from . import C12
@@ -221,6 +222,17 @@ def no_operand_mutation(ctx, prefixes=("dask/dataframe/dask_expr/", "dask/array/
                     ctx.ob("EFFECT.no-operand-mutation", c, f"{qn}: `{unparse(c)[:50]}` does not modify shared expression state", False, f"`{c.func.value.id}` is bound directly to state reachable from self and is modified in place: every other expression sharing that operand changes with it")
     ctx.count("self_alias_locals", n)
     ctx.floor("self_alias_locals", 50, "locals bound directly to self.<...> in expression classes")
+
+
+def fused_name_hash(ctx):
+    """INJ.fused-name: over-long fused key names are cut, and a hash of the FULL name is appended -- the
+    distinguishing token sits at the end of the name, which is exactly what gets cut off."""
+    f = ctx.model.module("dask/optimization.py").func("default_fused_keys_renamer._enforce_max_key_limit")
+    hs = find("name_hash = f'{hash(key_name):x}'[:4]", f)
+    cut = find("key_name = f'{key_name[:max_fused_key_length]}-{name_hash}'", f)
+    rebinds = [a for a in walk_no_nested(f) if isinstance(a, ast.Assign) and unparse(a.targets[0]) == "key_name"]
+    ok = len(hs) == 1 and len(cut) == 1 and len(rebinds) == 1 and dominates(f, hs[0][0], cut[0][0])
+    ctx.ob("INJ.fused-name", f, "the 4-hex suffix is the hash of the untruncated name, appended to the truncated name", ok, "" if ok else "the hash is taken after truncation: chains through the same long-named stages get one key and overwrite each other (results of different inputs are swapped)")
 
 
 def _expr_token(ctx):
